@@ -811,6 +811,47 @@ def _memo_exposers(ctx: Ctx) -> Dict[int, Tuple[Func, str]]:
     return out
 
 
+def _mutated_params(ctx: Ctx) -> Dict[int, Set[str]]:
+    """function -> parameters it changes in place (directly, or by handing them to a function that does)."""
+    out: Dict[int, Set[str]] = {}
+    for g in ctx.prog.funcs:
+        ps = set(g.params)
+        rebound = {n.id for n in own_nodes(g.node) if isinstance(n, ast.Name) and isinstance(n.ctx, ast.Store)}
+        hit: Set[str] = set()
+        for y in own_nodes(g.node):
+            if isinstance(y, ast.Name) and y.id in ps and y.id not in rebound:
+                py = getattr(y, "_parent", None)
+                if isinstance(py, ast.Attribute) and py.attr in MUTATORS and isinstance(getattr(py, "_parent", None), ast.Call) and getattr(py, "_parent").func is py:
+                    hit.add(y.id)
+                elif isinstance(py, ast.Subscript) and py.value is y and isinstance(py.ctx, (ast.Store, ast.Del)):
+                    hit.add(y.id)
+                elif isinstance(py, ast.AugAssign) and py.target is y:
+                    hit.add(y.id)
+        if hit:
+            out[id(g)] = hit
+    changed = True
+    from .common import bind_call
+
+    while changed:
+        changed = False
+        for g in ctx.prog.funcs:
+            ps = set(g.params)
+            rebound = {n.id for n in own_nodes(g.node) if isinstance(n, ast.Name) and isinstance(n.ctx, ast.Store)}
+            for e in ctx.cg.all_edges(g):
+                if e.kind != "call" or e.weak or not isinstance(e.site, ast.Call) or id(e.target) not in out:
+                    continue
+                t = e.target
+                b = bind_call(t, e.site, bound=t.cls is not None and t.kind != "staticmethod")
+                if not b:
+                    continue
+                for p_ in out[id(t)]:
+                    a = b.get(p_)
+                    if isinstance(a, ast.Name) and a.id in ps and a.id not in rebound and a.id not in out.get(id(g), set()):
+                        out.setdefault(id(g), set()).add(a.id)
+                        changed = True
+    return out
+
+
 def r05_9(ctx: Ctx, rep: Report, rid: str = "R05.9") -> None:
     """The list a memoised method hands out is the memo itself: whoever receives it must not change it, or the owner
     answers every later query from the changed list."""
@@ -820,6 +861,24 @@ def r05_9(ctx: Ctx, rep: Report, rid: str = "R05.9") -> None:
         rep.note(f"{rid} no method hands out its memo (copies only): nothing to protect")
         return
     names = {f.name for f, _ in exposers.values()}
+    mutated = _mutated_params(ctx)
+    from .common import bind_call
+
+    def handed_to_mutator(g: Func, arg: ast.AST) -> Optional[ast.AST]:
+        """The call (in g) that receives `arg` in a parameter its callee changes in place."""
+        par = getattr(arg, "_parent", None)
+        if isinstance(par, ast.keyword):
+            par = getattr(par, "_parent", None)
+        if not isinstance(par, ast.Call) or par.func is arg:
+            return None
+        for e in ctx.cg.all_edges(g):
+            if e.site is par and e.kind == "call" and not e.weak and id(e.target) in mutated:
+                t = e.target
+                b = bind_call(t, par, bound=t.cls is not None and t.kind != "staticmethod")
+                if b and any(b.get(p_) is arg for p_ in mutated[id(t)]):
+                    return par
+        return None
+
     n_sites = 0
     for g in ctx.prog.funcs:
         calls = []
@@ -842,6 +901,8 @@ def r05_9(ctx: Ctx, rep: Report, rid: str = "R05.9") -> None:
                 bad = par
             elif isinstance(par, ast.Subscript) and par.value is c and isinstance(par.ctx, (ast.Store, ast.Del)):
                 bad = par
+            elif handed_to_mutator(g, c) is not None:
+                bad = c
             alias = None
             if isinstance(par, (ast.Assign, ast.AnnAssign)) and par.value is c:
                 t = par.targets[0] if isinstance(par, ast.Assign) else par.target
@@ -868,10 +929,12 @@ def r05_9(ctx: Ctx, rep: Report, rid: str = "R05.9") -> None:
                                     bad = py
                                 elif isinstance(py, ast.AugAssign) and py.target is y:
                                     bad = py
+                                elif isinstance(y.ctx, ast.Load) and handed_to_mutator(g, y) is not None:
+                                    bad = y
                         if bad is not None:
                             break
             if bad is not None:
-                rep.violation(g.qualname, f"{snippet(c, 40)} ... {snippet(getattr(bad, '_parent', bad), 50)}", "the list returned here is the owner's memo itself; changing it in place changes what the owner answers from then on (other members' networks end up inside this one's)", where(g, bad), inp="a group whose first member is a non-contiguous wildcard: group.ipnets(), then member.ipnets()")
+                rep.violation(g.qualname, f"{snippet(c, 40)} ... {snippet(getattr(bad, '_parent', bad), 50)}", "the list returned here is the owner's memo itself; changing it in place (here or in the function it is handed to) changes what the owner answers from then on", where(g, bad), inp="a group whose first member is a non-contiguous wildcard: group.ipnets(), then member.ipnets()")
             else:
                 rep.ok(f"{g.qualname}: {snippet(c, 50)}", "the received memo list is only read", where=where(g, c), nontrivial=False)
     rep.note(f"{rid} {len(exposers)} functions can hand out a memo list; {n_sites} receiving call sites examined")
